@@ -1,6 +1,6 @@
 /* VERIF-GROUP
 {
- "property": ["C15"],
+ "property": ["C15", "C17"],
  "entry": "h_skip_value",
  "enforce": ["skip_value"],
  "replace": ["skip_literal", "skip_string", "skip_number", "skip_array", "skip_object"],
